@@ -45,6 +45,35 @@ def gen_graph(rng, name, n=None):
     return s
 
 
+def gen_nested_graph(rng, name):
+    """Two-level family: a root whose SUPERTYPE OF expression combines three children, two of which are themselves
+    (often ABSTRACT) supertypes with their own expression over two leaves.  8 entities -> all 255 subsets."""
+    L = lambda n: ('leaf', n)
+    ents = [M.Entity('z', attrs=[M.Attr('a_z', M.INT())])]
+
+    def E(n, sup=(), ab=False, sx=None):
+        ents.append(M.Entity(n, supers=list(sup), abstract=ab, sexpr=sx, attrs=[M.Attr('a_' + n, M.INT())]))
+    inner = rng.choice(['and', 'andor', 'oneof'])
+    outer = rng.choice(['andor', 'and', 'oneof', None])
+    pair = ('oneof', [L('hb'), L('hc')]) if inner == 'oneof' else (inner, L('hb'), L('hc'))
+    if outer is None:
+        top = pair                      # hd is an implicit (unmentioned) subtype
+    elif outer == 'oneof':
+        top = ('oneof', [pair, L('hd')])
+    else:
+        top = (outer, pair, L('hd'))
+    E('h', sx=top, ab=rng.random() < .3)
+    for c in ('hb', 'hc'):
+        k = rng.choice(['oneof', 'andor', 'and', None])
+        a, b = L(c + '1'), L(c + '2')
+        sx = None if k is None else (('oneof', [a, b]) if k == 'oneof' else (k, a, b))
+        E(c, ['h'], rng.random() < .6, sx)
+        E(c + '1', [c])
+        E(c + '2', [c])
+    E('hd', ['h'])
+    return M.Schema(name, [], ents)
+
+
 def set_shape(s, T):
     """Coarse description of a candidate set used in keys."""
     T = set(T)
@@ -125,6 +154,11 @@ def main(chk):
     for gi in range(n_graphs):
         rng = random.Random('c08/%d/%d' % (chk.seed, gi))
         graphs.append(gen_graph(rng, 'g%d_%d' % (chk.seed, gi)))
+    for gi in range(max(4, n_graphs // 4)):
+        rng = random.Random('c08n/%d/%d' % (chk.seed, gi))
+        graphs.append(gen_nested_graph(rng, 'n%d_%d' % (chk.seed, gi)))
+    # the fixed member of the nested family (AND of two abstract ONEOF supertypes under ANDOR) runs on every seed
+    graphs.append(gen_nested_graph(type('R', (), dict(choice=staticmethod(lambda xs: xs[0]), random=staticmethod(lambda: 0.5)))(), 'nfix_a'))
     graphs += [p.prepare().schema for p in probes.PROBES.get('C08', [])]
     libs = p21fam.report_build_failures(chk, p21fam.build_libs(graphs))
     jobs = []
